@@ -46,43 +46,74 @@ def strategy_table(f):
     return None, None, None
 
 
+_OPKIND = None
+
+
+def strategy_outcomes(prog, run, ex, kind, _depth=0):
+    """Path form of the strategy selection: which executor strategies does ``ex`` (execute(), or a helper it delegates the
+    choice to) call / return on the executions where the operation kind is ``kind``?  'raise' = the kind is refused."""
+    import re
+    from .. import boolx
+    pat = re.compile(r"^[\w.]+\.operation == '(\w+)'$")
+
+    def decide(t):
+        m = pat.match(t)
+        if m:
+            return m.group(1) == kind
+        return None
+    try:
+        _ev, exits = boolx.walk_under(ex.node, decide)
+    except ValueError as e:
+        raise AnalysisError("C09.S1: %s" % e)
+    out = set()
+
+    def of_value(v, stmts, atoms, depth=0):
+        v = boolx.path_value(stmts, None, v, atoms)
+        if isinstance(v, ast.Attribute) and v.attr.startswith("execute_fields"):
+            return {v.attr}
+        if isinstance(v, ast.Call) and _depth < 2:
+            cal = prog.resolve_call(ex, v)
+            cal = [c for c in (cal or []) if hasattr(c, "node") and c.cls is None]
+            if len(cal) == 1:
+                run.looked_at(cal[0])
+                return strategy_outcomes(prog, run, cal[0], kind, _depth + 1)
+        return set()
+    for k, st, env in exits:
+        atoms = {a: b for a, b in env.items() if a not in boolx.META}
+        stmts = env.get(boolx.STMTS, ())
+        if k == "raise":
+            out.add("raise")
+            continue
+        found = set()
+        if _depth and k == "return" and st.value is not None:
+            found |= of_value(st.value, stmts, atoms)
+        for c in env.get(boolx.CALLS, ()):
+            if isinstance(c.func, ast.Name):
+                found |= of_value(c.func, stmts, atoms)
+            elif isinstance(c.func, ast.Attribute) and c.func.attr.startswith("execute_fields") and not _depth:
+                found.add(c.func.attr)
+        out |= found or {"<none>"}
+    return out
+
+
 def check(prog, run):
     # ---- S1 strategy selection
     r = run.rule("S1", "execute() binds the serial strategy exactly for mutations, the parallel one for queries, refuses every "
                        "other operation kind, and calls the bound strategy", 4)
     ex = prog.get_func(EXECUTE, "execute")
     run.looked_at(ex)
-    table, var, default = strategy_table(ex)
-    if table is None:
-        # the dispatch may live in a helper whose result execute() binds and calls
-        for n in own_nodes(ex.node):
-            if isinstance(n, ast.Assign) and len(n.targets) == 1 and isinstance(n.targets[0], ast.Name) and isinstance(n.value, ast.Call):
-                callee = prog.resolve_call(ex, n.value)
-                callee = callee[0] if isinstance(callee, (list, tuple)) and callee else callee
-                if callee is not None and hasattr(callee, "node"):
-                    t2, v2, d2 = strategy_table(callee)
-                    if t2 is not None and v2 == "<return>":
-                        run.looked_at(callee)
-                        table, var, default = t2, n.targets[0].id, d2
-                        break
-    if table is None:
-        raise AnalysisError("C09.S1: operation-kind dispatch not found in execute()")
     want = {"query": "execute_fields", "mutation": "execute_fields_serially"}
-    for kind in sorted(set(table) | set(want)):
-        r.instance("operation %r -> %s" % (kind, table.get(kind)))
-        if kind in want and table.get(kind) != want[kind]:
-            run.report(r, "%s:execute:strategy(%s)" % (EXECUTE, kind), ex.where(),
-                       "%s operations are executed with %s (expected %s): %s" % (kind, table.get(kind), want[kind],
-                       "top-level mutation fields may run concurrently / out of order" if kind == "mutation" else "wrong strategy"))
-        if kind not in want and table.get(kind) != "raise":
-            run.report(r, "%s:execute:strategy(%s)" % (EXECUTE, kind), ex.where(), "%s operations are not refused" % kind)
-    r.instance("fallthrough -> %s" % default)
-    if default != "raise":
-        run.report(r, "%s:execute:strategy(default)" % EXECUTE, ex.where(), "unknown operation kinds are not refused")
-    called = any(isinstance(n, ast.Call) and ast.unparse(n.func) == var for n in own_nodes(ex.node))
-    r.instance("strategy variable %s is called: %s" % (var, called))
-    if not called:
-        run.report(r, "%s:execute:strategy-unused" % EXECUTE, ex.where(), "the selected strategy %s is never invoked" % var)
+    for kind in ("query", "mutation", "subscription", "<any other>"):
+        got = strategy_outcomes(prog, run, ex, kind)
+        r.instance("operation %r -> %s" % (kind, sorted(got)))
+        if kind in want:
+            if got != {want[kind]}:
+                run.report(r, "%s:execute:strategy(%s)" % (EXECUTE, kind), ex.where(),
+                           "%s operations are executed with %s (expected %s): %s" % (kind, sorted(got), want[kind],
+                           "top-level mutation fields may run concurrently / out of order" if kind == "mutation" else "wrong strategy"))
+        elif got != {"raise"}:
+            run.report(r, "%s:execute:strategy(%s)" % (EXECUTE, "default" if kind.startswith("<") else kind), ex.where(),
+                       "%s operations are not refused (outcomes %s)" % (kind, sorted(got)))
 
     # ---- S2 continuation chain
     r = run.rule("S2", "Executor.execute_fields_serially: the only resolve_field call sits in a closure that is started once and "
@@ -123,11 +154,17 @@ def check(prog, run):
     if _inside_loop(call):
         run.report(r, "%s:Executor.execute_fields_serially:loop" % EXE, step.where(call), "resolve_field is started inside a loop/comprehension")
     # map_value(resolve_field(...), cb)
-    mv = call._parent
+    from ..canon import Canon
+    scn = Canon(f.node)
     conts = []
-    if isinstance(mv, ast.Call) and isinstance(mv.func, ast.Attribute) and mv.func.attr == "map_value" and mv.args and mv.args[0] is call and len(mv.args) >= 2:
-        if isinstance(mv.args[1], ast.Name) and mv.args[1].id in step.nested:
-            conts.append(step.nested[mv.args[1].id])
+    mv = None
+    for cand in own_nodes(step.node):
+        if isinstance(cand, ast.Call) and scn.func_text(cand).endswith(".map_value") and len(cand.args) >= 2:
+            first = scn.expr(cand.args[0])
+            if isinstance(first, ast.Call) and (getattr(first, "lineno", None), getattr(first, "col_offset", None)) == (call.lineno, call.col_offset):
+                mv = cand
+                if isinstance(cand.args[1], ast.Name) and cand.args[1].id in step.nested:
+                    conts.append(step.nested[cand.args[1].id])
     r.instance("continuation attached through map_value: %s" % [c.name for c in conts])
     if not conts:
         run.report(r, "%s:Executor.execute_fields_serially:no-continuation" % EXE, step.where(call),
@@ -322,7 +359,7 @@ def check_deferred_conservation(prog, run, rule_id):
                 v = boolx.path_value(env.get(boolx.STMTS, ()), st, v, {})
             direct = isinstance(v, ast.Call) and ".runtime." in cn.func_text(v)
             if need not in names or not direct:
-                cond = ", ".join("%s=%s" % kv for kv in sorted(env.items()) if kv[0] not in (boolx.CALLS, boolx.STMTS))
+                cond = ", ".join("%s=%s" % kv for kv in sorted(env.items()) if kv[0] not in boolx.META)
                 run.report(r, "%s:Executor.%s:returns-ungathered" % (EXE, mname), m.where(st),
                            "Executor.%s can return `%s` without going through runtime.%s (when %s): deferred items inside it are "
                            "not waited for" % (mname, norm_stmt(st, 70), need, cond or "always"))
